@@ -787,7 +787,9 @@ class VN:
             return T.conj(v) if isinstance(v, T.Poly) else None
         if attr == "astype":
             v = self.ev(f.value, st)
-            return T.app("astype", self._as_term(v), self._as_term(args[0])) if args else v
+            dt = args[0] if args else kw.get("dtype")
+            extra = [T.app("kw:" + kk, self._as_term(vv)) for kk, vv in sorted(kw.items()) if kk not in ("dtype", "copy")]
+            return T.app("astype", self._as_term(v), self._as_term(dt), *extra) if dt is not None else v
         if attr in ("reshape", "ravel", "flatten", "transpose", "swapaxes", "view"):
             v = self.ev(f.value, st)
             if attr == "reshape" and isinstance(v, T.Poly) and len(args) == 1 and isinstance(args[0], T.Poly):
@@ -796,7 +798,11 @@ class VN:
                     inner = T.dec(va[2][0])
                     if isinstance(inner, T.Poly) and args[0] == T.app("attr:shape", inner, real=True):
                         return inner  # x.ravel().reshape(x.shape) = x
-            return T.app(attr, self._as_term(v), *[self._as_term(a) for a in args])
+            # keywords change the meaning (ravel(order="K") walks memory order, reshape(order="F") ...): they are part of the term;
+            # the default order="C" is dropped so that spelling it out is not a difference
+            kws = [T.app("kw:" + kk, self._as_term(vv)) for kk, vv in sorted(kw.items())
+                   if not (kk == "order" and vv == T.sym("'C'", real=True))]
+            return T.app(attr, self._as_term(v), *[self._as_term(a) for a in args], *kws)
         if attr in ("max", "min", "sum", "mean", "any", "all") and isinstance(f.value, (ast.Name, ast.Attribute, ast.Subscript, ast.Call, ast.BinOp)):
             v = self.ev(f.value, st)
             return T.app(attr, self._as_term(v), *[self._as_term(a) for a in args],
